@@ -113,7 +113,23 @@ ADDED = {
  "C18-r7a": "signed-zero and empty epochs (-0:1, -00:1.2, +0:1, :1) in every version stream incl. the concurrent one",
  "C19-r7a": "the same sources decoded from one stream into a slice, then ordered",
  "C20-r7a": "law-upload-xdev: the destination on another file system (rename fails with EXDEV)",
+ "C03-r8a": "law-verjson-esc: the same JSON string spelled with \\uXXXX escapes decodes to the same version",
+ "C08-r8b": "caller-built single-line values that keep their leading blanks (no trailing newline)",
+ "C10-r8b": "the control file of a .deb decoded through deb.Load with control.tar stored in every way deb(5) names",
+ "C11-r8a": "armored inline-signed OpenPGP messages (gpg --sign --armor) made with a key outside the keyring",
+ "C12-r8b": "one BestChecksums variable decoded into paragraph after paragraph, its selector used in between",
+ "C14-r8b": "further lines in debian-binary in the .deb model of C14",
+ "C16-r8b": "law-debsig-krmut: keyrings of 1 - 100 entries replaced / emptied / refilled in place between CheckDebsig calls",
+ "C17-r8a": "the caller's own ParseOne loop on a buffered reader of 16 - 8192 bytes",
 }
+FIRST8 = {}
+try:
+    for l in open("/verif/seeded/r8-first-run.txt"):
+        f = l.split()
+        if len(f) > 1:
+            FIRST8[f[0]] = f[1]
+except FileNotFoundError:
+    pass
 FIRST7 = {}
 try:
     for l in open("/verif/seeded/r7-first-run.txt"):
@@ -152,6 +168,8 @@ def row(m):
         first = {"detected": FIRST6[name] == "VIOLATION"}
     if name in FIRST7:
         first = {"detected": FIRST7[name] == "VIOLATION"}
+    if name in FIRST8:
+        first = {"detected": FIRST8[name] == "VIOLATION"}
     if first is None or first.get("detected"):
         fr = "detected on the first run"
         if first and name in ADDED:
@@ -216,6 +234,14 @@ First run (`r7-first-run.txt`; the machinery as committed before the round, exce
 added before the last ten changes were evaluated): 22 detected, 18 missed.  After the extensions in the last column:
 40 detected.
 
-""" + table("r7") + "\n"
+""" + table("r7") + """
+
+## Eighth round: ten properties once more (the ones round 7 hit hardest)
+
+Nineteen changes (C03, C07, C08, C10, C11, C12, C14, C16, C17, C20; one author withdrew a change that the unchanged
+suite caught), same brief as round 7 with the round-7 ideas added to the "already tried" list.  First run
+(`r8-first-run.txt`): 11 detected, 8 missed.  After the extensions in the last column: 19 detected.
+
+""" + table("r8") + "\n"
 open("/verif/seeded/README.md", "w").write(readme)
 print("README written")
